@@ -83,10 +83,12 @@ func (m *closureManager) CallClosure(ctx context.Context, closureID string, args
 	m.closuresLock.Lock()
 	closure, ok := m.closures[closureID]
 	if !ok {
+		verifTrace("closure.miss", closureID)
 		m.closuresLock.Unlock()
 
 		return nil, ErrClosureDoesNotExist
 	}
+	verifTrace("closure.hit", closureID)
 	m.closuresLock.Unlock()
 
 	var c context.Context = ctx
@@ -104,11 +106,13 @@ func registerClosure(m *closureManager, fn interface{}) (string, func(), error) 
 
 	m.closuresLock.Lock()
 	m.closures[closureID] = cls
+	verifTrace("closure.registered", closureID)
 	m.closuresLock.Unlock()
 
 	return closureID, func() {
 		m.closuresLock.Lock()
 		delete(m.closures, closureID)
+		verifTrace("closure.freed", closureID)
 		m.closuresLock.Unlock()
 	}, nil
 }
